@@ -1,5 +1,5 @@
 (* C13 -- converted_call: the generated decision chain against the documented policy, exhaustively
-   over all situations (7 077 888 of them, one vm_compute), and the Prop-level corollaries. *)
+   over all situations (8 257 536 of them, one vm_compute), and the Prop-level corollaries. *)
 From Coq Require Import List String Ascii Bool Arith Lia.
 Import ListNotations.
 Require Import MV.Policy.PolicySyntax MV.Policy.Policy MV.Policy.Spec MV.Generated.C13_gen.
